@@ -128,7 +128,7 @@ class PersistSystem(c07.LinkSystem):
 
 def run_case(case):
     hist = case["history"]
-    sysm = PersistSystem(hist)
+    sysm = PersistSystem(hist, case.get("holes", (0, 0, 0)))
     L = sysm.fresh()
     for op in hist:
         sysm.apply(L, op)
@@ -151,6 +151,13 @@ def run(ctx):
     r2 = explorer.bfs(ctx, PersistSystem(full), 2 if ctx.thorough else 1, op_indices=rotate(range(len(full)), ctx.seed), chunk=4,
                       verify_chunk=64)
     ctx.add(r2.violations)
+    # module numbers with gaps (one, two and three ADJACENT empty slots in front of linked modules)
+    r3s = []
+    for holes in ((2, 1, 0), (0, 0, 3)):
+        r3 = explorer.bfs(ctx, PersistSystem(A1, holes), 4 if ctx.thorough else 3,
+                          op_indices=rotate(range(len(A1)), ctx.seed), chunk=64, verify_chunk=64)
+        ctx.add(r3.violations)
+        r3s.append(r3)
     # how many file variants one state produces (measured on a sample state for the evidence)
     sysm = PersistSystem(A1)
     L = sysm.fresh()
@@ -159,10 +166,12 @@ def run(ctx):
         sysm.apply(L, op)
     nvar, _ = persistence_checks(L.p)
     return {
-        "states": r1.states + r2.states,
-        "transitions": r1.transitions + r2.transitions,
-        "traces_validated_against_impl": r1.replay_verified + r2.replay_verified,
-        "exhaustive": not (r1.capped or r2.capped),
+        "states": r1.states + r2.states + sum(r.states for r in r3s),
+        "transitions": r1.transitions + r2.transitions + sum(r.transitions for r in r3s),
+        "traces_validated_against_impl": r1.replay_verified + r2.replay_verified + sum(r.replay_verified for r in r3s),
+        "exhaustive": not (r1.capped or r2.capped or any(r.capped for r in r3s)),
+        "layouts_with_empty_slots": [{"holes": list(h), "depth_completed": r.depth_completed, "states": r.states}
+                                     for h, r in zip(((2, 1, 0), (0, 0, 3)), r3s)],
         "A1": {"depth_completed": r1.depth_completed, "states": r1.states, "states_round_tripped": r1.replay_verified + 1},
         "full_alphabet": {"ops": len(full), "depth_completed": r2.depth_completed, "states": r2.states,
                           "states_round_tripped": r2.replay_verified + 1},
